@@ -134,34 +134,11 @@ theorem passRule_ternary (node kw : Str) (body : CT) (last : Bool) :
 
 /-! ## suites are not empty -/
 
-theorem passProg_ne_nil {b : Bool} {p : Prog} (h : b = true ∨ p ≠ .nil) : passProg b p ≠ .nil := by
-  cases b with
-  | true => simp [passProg]
-  | false =>
-    rcases h with h | h
-    · cases h
-    · simpa [passProg] using h
+theorem fillProg_ne_nil (p : Prog) : fillProg p ≠ .nil := by
+  cases p <;> simp [fillProg]
 
-theorem structOf_ne_nil (el : Bool) : ∀ b : CT, noSilent b = true → firstReal b = some .other →
-    structOf el b ≠ .nil
-  | .nil, _, h => by simp [firstReal] at h
-  | .leaf .comment rest, hn, h => by
-    simp only [noSilent, Bool.and_eq_true] at hn
-    simp only [firstReal] at h
-    simpa [structOf, Leaf.prog] using structOf_ne_nil el rest hn.2 h
-  | .leaf (.stmt _ _ _) _, _, _ => by simp [structOf, Leaf.prog]
-  | .leaf (.block _ _ none) _, _, _ => by simp [structOf, Leaf.prog]
-  | .leaf (.block _ _ (some _)) _, _, _ => by simp [structOf, Leaf.prog]
-  | .leaf (.silent _ _) _, hn, _ => by simp [noSilent, Leaf.writes] at hn
-  | .ctl _ _ _ _, _, h => by simp [firstReal] at h
-
-theorem suite_ne_nil (el : Bool) (body : CT) (hn : noSilent body = true) :
-    passProg (passExpected body) (structOf el body) ≠ .nil := by
-  apply passProg_ne_nil
-  rcases firstReal_cases body with h | h | ⟨k, h⟩
-  · left; simp [passExpected, h]
-  · right; exact structOf_ne_nil el body hn h
-  · left; simp [passExpected, h]
+theorem suitesNonEmpty_fillProg {p : Prog} (h : suitesNonEmpty p = true) : suitesNonEmpty (fillProg p) = true := by
+  cases p <;> simpa [fillProg, suitesNonEmpty] using h
 
 -- `forOk`: for every primary line with a loop context `_FOR_LOOP` matched (otherwise the real generator raises)
 mutual
@@ -180,27 +157,25 @@ theorem suitesNonEmpty_passProg {b : Bool} {p : Prog} (h : suitesNonEmpty p = tr
   cases b <;> simp [passProg, suitesNonEmpty, h]
 
 mutual
-theorem suites_structOf (el : Bool) : ∀ t : CT, noSilent t = true → forOk el t = true →
-    suitesNonEmpty (structOf el t) = true
-  | .nil, _, _ => rfl
-  | .leaf k rest, hn, hf => by
-    simp only [noSilent, Bool.and_eq_true] at hn
+theorem suites_structOf (el : Bool) : ∀ t : CT, forOk el t = true → suitesNonEmpty (structOf el t) = true
+  | .nil, _ => rfl
+  | .leaf k rest, hf => by
     simp only [forOk] at hf
-    have := suites_structOf el rest hn.2 hf
+    have := suites_structOf el rest hf
     cases k with
     | block t lr st => cases st <;> simpa [structOf, Leaf.prog, suitesNonEmpty] using this
     | comment => simpa [structOf, Leaf.prog, suitesNonEmpty] using this
     | stmt _ _ _ => simpa [structOf, Leaf.prog, suitesNonEmpty] using this
     | silent _ _ => simpa [structOf, Leaf.prog, suitesNonEmpty] using this
-  | .ctl hdr body terns rest, hn, hf => by
-    simp only [noSilent, Bool.and_eq_true] at hn
+  | .ctl hdr body terns rest, hf => by
     simp only [forOk, Bool.and_eq_true, Bool.or_eq_true, Bool.not_eq_true'] at hf
     obtain ⟨⟨⟨hfp, hfb⟩, hft⟩, hfr⟩ := hf
-    have hb := suites_structOf el body hn.1.1 hfb
-    have hr := suites_structOf el rest hn.2 hfr
-    have hsuite := suite_ne_nil el body hn.1.1
-    have hsb : suitesNonEmpty (passProg (passExpected body) (structOf el body)) = true := suitesNonEmpty_passProg hb
-    simp only [structOf, passRule_primary]
+    have hb := suites_structOf el body hfb
+    have hr := suites_structOf el rest hfr
+    have hsb : ∀ b, suitesNonEmpty (fillProg (passProg b (structOf el body))) = true :=
+      fun _ => suitesNonEmpty_fillProg (suitesNonEmpty_passProg hb)
+    have hne : ∀ b, fillProg (passProg b (structOf el body)) ≠ .nil := fun _ => fillProg_ne_nil _
+    simp only [structOf]
     split
     · rename_i hlc
       have : hdr.forParts.isSome = true := by
@@ -208,47 +183,47 @@ theorem suites_structOf (el : Bool) : ∀ t : CT, noSilent t = true → forOk el
         · rw [hlc] at h; cases h
         · exact h
       obtain ⟨⟨target, iter⟩, hp⟩ := Option.isSome_iff_exists.mp this
-      have ht := suites_structTerns el hdr.kw terns .nil hn.1.2 hft rfl
-      simp [hp, suitesNonEmpty, hsuite, hsb, ht, hr]
-    · have ht := suites_structTerns el hdr.kw terns _ hn.1.2 hft hr
-      simp [suitesNonEmpty, hsuite, hsb, ht]
-theorem suites_structTerns (el : Bool) (kw : Str) : ∀ (ts : Terns) (k : Prog), noSilentT ts = true →
+      have ht := suites_structTerns el hdr.kw terns .nil hft rfl
+      simp [hp, suitesNonEmpty, hne, hsb, ht, hr]
+    · have ht := suites_structTerns el hdr.kw terns _ hft hr
+      simp [suitesNonEmpty, hne, hsb, ht]
+theorem suites_structTerns (el : Bool) (kw : Str) : ∀ (ts : Terns) (k : Prog),
     forOkT el ts = true → suitesNonEmpty k = true → suitesNonEmpty (structTerns el kw ts k) = true
-  | .nil, _, _, _, hk => hk
-  | .cons hdr body more, k, hn, hf, hk => by
-    simp only [noSilentT, Bool.and_eq_true] at hn
+  | .nil, _, _, hk => hk
+  | .cons hdr body more, k, hf, hk => by
     simp only [forOkT, Bool.and_eq_true] at hf
-    have hb := suites_structOf el body hn.1 hf.1
-    have h1 := suite_ne_nil el body hn.1
-    have h2 : suitesNonEmpty (passProg (passExpected body) (structOf el body)) = true := suitesNonEmpty_passProg hb
-    have h3 := suites_structTerns el kw more k hn.2 hf.2 hk
-    simp [structTerns, passRule_ternary, suitesNonEmpty, h1, h2, h3]
+    have hb := suites_structOf el body hf.1
+    have h2 : ∀ b, suitesNonEmpty (fillProg (passProg b (structOf el body))) = true :=
+      fun _ => suitesNonEmpty_fillProg (suitesNonEmpty_passProg hb)
+    have h1 : ∀ b, fillProg (passProg b (structOf el body)) ≠ .nil := fun _ => fillProg_ne_nil _
+    have h3 := suites_structTerns el kw more k hf.2 hk
+    simp [structTerns, suitesNonEmpty, h1, h2, h3]
 end
 
 /-! ## the visitor's printer calls are the emission of the structured program -/
 
 /-- shape conditions on the lines of a template: simple lines are `LineOk`; headers are `HeaderOk`; a primary
-    line is no continuation clause, a ternary line is one; with `strict`, a ternary line follows only a header
-    that is in `_re_compound` (what `_is_unindentor` needs) -/
+    line is no continuation clause, a ternary line is one and follows only a header that is in `_re_compound`
+    (i.e. not an `% else:` - Python's grammar) -/
 def Leaf.ok : Leaf → Bool
   | .stmt l _ _ => LineOk l
   | _ => true
 
 mutual
-def ctOk (strict el : Bool) : CT → Bool
+def ctOk (el : Bool) : CT → Bool
   | .nil => true
-  | .leaf k rest => k.ok && ctOk strict el rest
+  | .leaf k rest => k.ok && ctOk el rest
   | .ctl hdr body terns rest =>
     let lc := hasLoopContext el hdr body terns
     (!lc || hdr.forParts.isSome) &&
       HeaderOk (primaryText lc hdr) && !isCont (primaryText lc hdr) &&
-      ctOk strict el body && ternsOk strict el (isCompound (primaryText lc hdr)) terns && ctOk strict el rest &&
+      ctOk el body && ternsOk el (isCompound (primaryText lc hdr)) terns && ctOk el rest &&
       (!lc || LineOk (enterLine (hdr.forParts.getD ([], [])).2))
-def ternsOk (strict el : Bool) (prevCompound : Bool) : Terns → Bool
+def ternsOk (el : Bool) (prevCompound : Bool) : Terns → Bool
   | .nil => true
   | .cons hdr body more =>
-    HeaderOk hdr.text && isCont hdr.text && (!strict || prevCompound) && ctOk strict el body &&
-      ternsOk strict el (isCompound hdr.text) more
+    HeaderOk hdr.text && isCont hdr.text && prevCompound && ctOk el body &&
+      ternsOk el (isCompound hdr.text) more
 end
 
 theorem startsCont_leaf_prog (k : Leaf) (p : Prog) (h : startsCont p = false) : startsCont (k.prog p) = false := by
@@ -258,11 +233,11 @@ theorem startsCont_leaf_prog (k : Leaf) (p : Prog) (h : startsCont p = false) : 
   | stmt _ _ _ => rfl
   | block _ _ st => cases st <;> rfl
 
-theorem startsCont_structOf (strict el : Bool) : ∀ t : CT, ctOk strict el t = true → startsCont (structOf el t) = false
+theorem startsCont_structOf (el : Bool) : ∀ t : CT, ctOk el t = true → startsCont (structOf el t) = false
   | .nil, _ => rfl
   | .leaf k rest, h => by
     simp only [ctOk, Bool.and_eq_true] at h
-    simpa [structOf] using startsCont_leaf_prog k _ (startsCont_structOf strict el rest h.2)
+    simpa [structOf] using startsCont_leaf_prog k _ (startsCont_structOf el rest h.2)
   | .ctl hdr body terns rest, h => by
     simp only [ctOk, Bool.and_eq_true, Bool.or_eq_true, Bool.not_eq_true'] at h
     obtain ⟨⟨⟨⟨⟨⟨hfp, _⟩, hnc⟩, _⟩, _⟩, _⟩, _⟩ := h
@@ -297,60 +272,6 @@ theorem try_notCont : isCont tryLine = false := by decide
 
 theorem emit_line_wl (s : Str) (r : Prog) : emit (.line false s r) = .wl (some s) :: emit r := rfl
 theorem emitAfter_nil : emitAfter .nil = [.wl none] := rfl
-
-mutual
-theorem emit_structOf (strict el : Bool) : ∀ t : CT, ctOk strict el t = true → emit (structOf el t) = emitCT el t
-  | .nil, _ => rfl
-  | .leaf k rest, h => by
-    simp only [ctOk, Bool.and_eq_true] at h
-    simp [structOf, emitCT, emit_leaf_prog, emit_structOf strict el rest h.2]
-  | .ctl hdr body terns rest, h => by
-    have h0 := h
-    simp only [ctOk, Bool.and_eq_true, Bool.or_eq_true, Bool.not_eq_true'] at h
-    obtain ⟨⟨⟨⟨⟨⟨hfp, _⟩, hnc⟩, hb⟩, ht⟩, hr⟩, _⟩ := h
-    have eb := emit_structOf strict el body hb
-    have er := emit_structOf strict el rest hr
-    have sr := startsCont_structOf strict el rest hr
-    simp only [structOf, emitCT]
-    split
-    · rename_i hlc
-      have : hdr.forParts.isSome = true := by
-        rcases hfp with h | h
-        · rw [hlc] at h; cases h
-        · exact h
-      obtain ⟨⟨target, iter⟩, hp⟩ := Option.isSome_iff_exists.mp this
-      have et := emitAfter_structTerns strict el hdr.kw terns .nil _ ht
-      simp only [hp, hlc, primaryText, loopPrologue, if_true]
-      have e1 : emitAfter (.comp finallyLine (.line false exitLine .nil) (structOf el rest)) =
-          .wl (some finallyLine) :: .wl (some exitLine) :: .wl none :: emitCT el rest := by
-        have : emitAfter (.comp finallyLine (.line false exitLine .nil) (structOf el rest)) =
-            emit (.comp finallyLine (.line false exitLine .nil) (structOf el rest)) := by
-          simp [emitAfter, startsCont, finally_isCont]
-        rw [this, emit_comp, emit_line_wl, emitAfter_noCont sr, er]
-        rfl
-      rw [emit_line_wl, emit_comp, emit_comp, emit_passProg, eb, et, e1, emitAfter_nil]
-      simp
-    · rename_i hlc
-      have hlc' : hasLoopContext el hdr body terns = false := by simpa using hlc
-      have et := emitAfter_structTerns strict el hdr.kw terns (structOf el rest) _ ht
-      simp only [hlc', primaryText, loopPrologue, Bool.false_eq_true, if_false]
-      rw [emit_comp, emit_passProg, eb, et, emitAfter_noCont sr, er]
-      simp
-theorem emitAfter_structTerns (strict el : Bool) (kw : Str) : ∀ (ts : Terns) (k : Prog) (pc : Bool),
-    ternsOk strict el pc ts = true → emitAfter (structTerns el kw ts k) = emitTerns el kw ts ++ emitAfter k
-  | .nil, k, _, _ => by simp [structTerns, emitTerns]
-  | .cons hdr body more, k, pc, h => by
-    simp only [ternsOk, Bool.and_eq_true] at h
-    obtain ⟨⟨⟨⟨_, hc⟩, _⟩, hb⟩, hm⟩ := h
-    have eb := emit_structOf strict el body hb
-    have em := emitAfter_structTerns strict el kw more k _ hm
-    have : emitAfter (structTerns el kw (.cons hdr body more) k) = emit (structTerns el kw (.cons hdr body more) k) := by
-      simp [emitAfter, structTerns, startsCont, hc]
-    rw [this]
-    simp only [structTerns, emitTerns]
-    rw [emit_comp, emit_passProg, eb, em]
-    simp
-end
 
 theorem lskip_cons_of_not_space {c : Char} {r : Str} (h : isSpace c = false) : lskip (c :: r) = c :: r := by
   simp [lskip, List.dropWhile, h]
@@ -403,6 +324,14 @@ theorem good_passProg {b : Bool} {p : Prog} (h : good none p = true) : good none
   · have : LineOk passLine = true := by decide
     simp [passProg, good, this, h]
 
+theorem good_fillProg {p : Prog} (h : good none p = true) : good none (fillProg p) = true := by
+  cases p with
+  | nil =>
+    have : LineOk passLine = true := by decide
+    simp [fillProg, good, this]
+  | line _ _ _ => simpa [fillProg] using h
+  | comp _ _ _ => simpa [fillProg] using h
+
 theorem good_leaf_prog (k : Leaf) (p : Prog) (hk : k.ok = true) (h : good none p = true) : good none (k.prog p) = true := by
   cases k with
   | stmt l _ _ => simpa [Leaf.prog, good, h, Leaf.ok] using hk
@@ -430,7 +359,7 @@ theorem try_compound : isCompound tryLine = true := by decide
 theorem exit_lineOk : LineOk exitLine = true := by decide
 
 mutual
-theorem good_structOf (el : Bool) : ∀ t : CT, ctOk true el t = true → good none (structOf el t) = true
+theorem good_structOf (el : Bool) : ∀ t : CT, ctOk el t = true → good none (structOf el t) = true
   | .nil, _ => rfl
   | .leaf k rest, h => by
     simp only [ctOk, Bool.and_eq_true] at h
@@ -438,9 +367,10 @@ theorem good_structOf (el : Bool) : ∀ t : CT, ctOk true el t = true → good n
   | .ctl hdr body terns rest, h => by
     simp only [ctOk, Bool.and_eq_true, Bool.or_eq_true, Bool.not_eq_true'] at h
     obtain ⟨⟨⟨⟨⟨⟨hfp, hh⟩, hnc⟩, hb⟩, ht⟩, hr⟩, hent⟩ := h
-    have gb : ∀ b, good none (passProg b (structOf el body)) = true := fun _ => good_passProg (good_structOf el body hb)
+    have gb : ∀ b, good none (fillProg (passProg b (structOf el body))) = true :=
+      fun _ => good_fillProg (good_passProg (good_structOf el body hb))
     have gr := good_structOf el rest hr
-    have sr := startsCont_structOf true el rest hr
+    have sr := startsCont_structOf el rest hr
     simp only [structOf]
     split
     · rename_i hlc
@@ -459,7 +389,7 @@ theorem good_structOf (el : Bool) : ∀ t : CT, ctOk true el t = true → good n
         rw [good_comp, good_line, good_prev _ none sr, gr]
         simp [finally_headerOk, finally_isCont, try_compound, exit_lineOk, good]
       have gfor : good none (.comp (forLoopLine target)
-          (passProg (passRule hdr.kw (primaryChildren hdr.kw body terns)) (structOf el body))
+          (fillProg (passProg (passRule hdr.kw (primaryChildren hdr.kw body terns)) (structOf el body)))
           (structTerns el hdr.kw terns .nil)) = true := by
         rw [good_comp, gb, gt]; simp [hh, hnc]
       rw [good_line, good_comp, gfor, gfin]
@@ -470,17 +400,175 @@ theorem good_structOf (el : Bool) : ∀ t : CT, ctOk true el t = true → good n
       have gt := good_structTerns el hdr.kw terns (structOf el rest) _ ht gr sr
       rw [good_comp, gb, gt]; simp [hh, hnc]
 theorem good_structTerns (el : Bool) (kw : Str) : ∀ (ts : Terns) (k : Prog) (pc : Bool),
-    ternsOk true el pc ts = true → good none k = true → startsCont k = false →
+    ternsOk el pc ts = true → good none k = true → startsCont k = false →
     good (some pc) (structTerns el kw ts k) = true
   | .nil, k, pc, _, hk, hs => by simpa [structTerns] using (good_prev (some pc) none hs).trans hk
   | .cons hdr body more, k, pc, h, hk, hs => by
-    simp only [ternsOk, Bool.and_eq_true, Bool.not_true, Bool.false_or] at h
+    simp only [ternsOk, Bool.and_eq_true] at h
     obtain ⟨⟨⟨⟨hh, hc⟩, hpc⟩, hb⟩, hm⟩ := h
-    have gb : ∀ b, good none (passProg b (structOf el body)) = true := fun _ => good_passProg (good_structOf el body hb)
+    have gb : ∀ b, good none (fillProg (passProg b (structOf el body))) = true :=
+      fun _ => good_fillProg (good_passProg (good_structOf el body hb))
     have gm := good_structTerns el kw more k _ hm hk hs
     subst hpc
     simp only [structTerns]
     rw [good_comp, gb, gm]; simp [hh, hc]
+end
+
+/-! ## the flag the visitor consults, and the emission -/
+
+/-- every simple line of the program leaves `suite_is_empty` cleared -/
+def quiet : Prog → Bool
+  | .nil => true
+  | .line raw s r => (raw || (opens s).isNone) && quiet r
+  | .comp _ b r => quiet b && quiet r
+
+theorem quiet_of_good : ∀ (p : Prog) (prev : Option Bool), good prev p = true → quiet p = true
+  | .nil, _, _ => rfl
+  | .line raw s r, _, h => by
+    simp only [good, Bool.and_eq_true, Bool.or_eq_true] at h
+    have hr := quiet_of_good r none h.2
+    rcases h.1 with h1 | h1
+    · simp [quiet, h1, hr]
+    · simp only [LineOk, Bool.and_eq_true] at h1
+      simp [quiet, h1.2, hr]
+  | .comp hd b r, _, h => by
+    simp only [good, Bool.and_eq_true] at h
+    simp [quiet, quiet_of_good b none h.1.2, quiet_of_good r _ h.2]
+
+/-- after the emission of a program with quiet lines and no empty suite the flag is cleared - unless the
+    program is empty, which leaves the flag as it was -/
+theorem flag_emit : ∀ (p : Prog), quiet p = true → suitesNonEmpty p = true → ∀ e : Bool,
+    flagAfter e (emit p) = (match p with | .nil => e | _ => false)
+  | .nil, _, _, _ => rfl
+  | .line raw s r, hq, hs, e => by
+    simp only [quiet, Bool.and_eq_true, Bool.or_eq_true, Option.isNone_iff_eq_none] at hq
+    simp only [suitesNonEmpty] at hs
+    have ih := flag_emit r hq.2 hs
+    have h1 : flagAfterEv e (if raw = true then Ev.blk s else Ev.wl (some s)) = false := by
+      cases raw with
+      | true => rfl
+      | false =>
+        rcases hq.1 with h | h
+        · cases h
+        · simp [flagAfterEv, h]
+    simp only [emit, flagAfter_cons, h1, ih]
+    cases r <;> rfl
+  | .comp h b r, hq, hs, e => by
+    simp only [quiet, Bool.and_eq_true] at hq
+    simp only [suitesNonEmpty, Bool.and_eq_true, bne_iff_ne, ne_eq] at hs
+    obtain ⟨⟨hbn, hsb⟩, hsr⟩ := hs
+    have ihb := flag_emit b hq.1 hsb
+    have ihr := flag_emit r hq.2 hsr
+    have hb' : ∀ e', flagAfter e' (emit b) = false := by
+      intro e'
+      rw [ihb]
+      cases b with
+      | nil => exact absurd rfl hbn
+      | line _ _ _ => rfl
+      | comp _ _ _ => rfl
+    rw [emit_comp, flagAfter_cons, flagAfter_append, hb']
+    unfold emitAfter
+    split
+    · rw [ihr]; cases r <;> rfl
+    · rw [flagAfter_cons, ihr]; cases r <;> rfl
+
+def isNilProg : Prog → Bool
+  | .nil => true
+  | _ => false
+
+theorem emit_fillProg (p : Prog) : emit (fillProg p) = emit p ++ passEv (isNilProg p) := by
+  cases p <;> simp [fillProg, isNilProg, passEv, emit]
+
+/-- at a ternary / end line, after a header that opened a level, the printer's flag says exactly whether the
+    suite written so far is empty -/
+theorem fillEv_emit {hdr : Str} {p : Prog} (hh : HeaderOk hdr = true) (hq : quiet p = true)
+    (hs : suitesNonEmpty p = true) : fillEv hdr (emit p) = passEv (isNilProg p) := by
+  have ho : (opens hdr).isSome = true := by
+    simp only [HeaderOk, Bool.and_eq_true] at hh; exact hh.2
+  rw [fillEv, ho, flag_emit p hq hs]
+  cases p <;> rfl
+
+theorem quiet_passProg {b : Bool} {p : Prog} (h : quiet p = true) : quiet (passProg b p) = true := by
+  cases b
+  · simpa [passProg] using h
+  · have : (opens passLine).isNone = true := by decide
+    simp [passProg, quiet, this, h]
+
+mutual
+theorem emit_structOf (el : Bool) : ∀ t : CT, ctOk el t = true → forOk el t = true →
+    emit (structOf el t) = emitCT el t
+  | .nil, _, _ => rfl
+  | .leaf k rest, h, hf => by
+    simp only [ctOk, Bool.and_eq_true] at h
+    simp only [forOk] at hf
+    simp [structOf, emitCT, emit_leaf_prog, emit_structOf el rest h.2 hf]
+  | .ctl hdr body terns rest, h, hf => by
+    simp only [forOk, Bool.and_eq_true, Bool.or_eq_true, Bool.not_eq_true'] at hf
+    obtain ⟨⟨⟨_, hfb⟩, hft⟩, hfr⟩ := hf
+    simp only [ctOk, Bool.and_eq_true, Bool.or_eq_true, Bool.not_eq_true'] at h
+    obtain ⟨⟨⟨⟨⟨⟨hfp, hh⟩, hnc⟩, hb⟩, ht⟩, hr⟩, _⟩ := h
+    have eb := emit_structOf el body hb hfb
+    have er := emit_structOf el rest hr hfr
+    have sr := startsCont_structOf el rest hr
+    -- the suite as the visitor writes it, and the flag at its end
+    have hq : ∀ b, quiet (passProg b (structOf el body)) = true :=
+      fun _ => quiet_passProg (quiet_of_good _ none (good_structOf el body hb))
+    have hsn : ∀ b, suitesNonEmpty (passProg b (structOf el body)) = true :=
+      fun _ => suitesNonEmpty_passProg (suites_structOf el body hfb)
+    have suite : ∀ b, emit (fillProg (passProg b (structOf el body))) =
+        (passEv b ++ emitCT el body) ++ fillEv (primaryText (hasLoopContext el hdr body terns) hdr)
+          (passEv b ++ emitCT el body) := by
+      intro b
+      rw [emit_fillProg, ← fillEv_emit hh (hq b) (hsn b), emit_passProg, eb]
+    simp only [structOf, emitCT]
+    split
+    · rename_i hlc
+      have : hdr.forParts.isSome = true := by
+        rcases hfp with h | h
+        · rw [hlc] at h; cases h
+        · exact h
+      obtain ⟨⟨target, iter⟩, hp⟩ := Option.isSome_iff_exists.mp this
+      have et := emitAfter_structTerns el hdr.kw terns .nil _ ht hft
+      simp only [hp, hlc, primaryText, loopPrologue, if_true] at suite ⊢
+      have e1 : emitAfter (.comp finallyLine (.line false exitLine .nil) (structOf el rest)) =
+          .wl (some finallyLine) :: .wl (some exitLine) :: .wl none :: emitCT el rest := by
+        have : emitAfter (.comp finallyLine (.line false exitLine .nil) (structOf el rest)) =
+            emit (.comp finallyLine (.line false exitLine .nil) (structOf el rest)) := by
+          simp [emitAfter, startsCont, finally_isCont]
+        rw [this, emit_comp, emit_line_wl, emitAfter_noCont sr, er]
+        rfl
+      rw [emit_line_wl, emit_comp, emit_comp, suite, et, e1, emitAfter_nil]
+      simp
+    · rename_i hlc
+      have hlc' : hasLoopContext el hdr body terns = false := by simpa using hlc
+      have et := emitAfter_structTerns el hdr.kw terns (structOf el rest) _ ht hft
+      simp only [hlc', primaryText, loopPrologue, Bool.false_eq_true, if_false] at suite ⊢
+      rw [emit_comp, suite, et, emitAfter_noCont sr, er]
+      simp
+theorem emitAfter_structTerns (el : Bool) (kw : Str) : ∀ (ts : Terns) (k : Prog) (pc : Bool),
+    ternsOk el pc ts = true → forOkT el ts = true →
+    emitAfter (structTerns el kw ts k) = emitTerns el kw ts ++ emitAfter k
+  | .nil, k, _, _, _ => by simp [structTerns, emitTerns]
+  | .cons hdr body more, k, pc, h, hf => by
+    simp only [forOkT, Bool.and_eq_true] at hf
+    simp only [ternsOk, Bool.and_eq_true] at h
+    obtain ⟨⟨⟨⟨hh, hc⟩, _⟩, hb⟩, hm⟩ := h
+    have eb := emit_structOf el body hb hf.1
+    have em := emitAfter_structTerns el kw more k _ hm hf.2
+    have hq : ∀ b, quiet (passProg b (structOf el body)) = true :=
+      fun _ => quiet_passProg (quiet_of_good _ none (good_structOf el body hb))
+    have hsn : ∀ b, suitesNonEmpty (passProg b (structOf el body)) = true :=
+      fun _ => suitesNonEmpty_passProg (suites_structOf el body hf.1)
+    have suite : ∀ b, emit (fillProg (passProg b (structOf el body))) =
+        (passEv b ++ emitCT el body) ++ fillEv hdr.text (passEv b ++ emitCT el body) := by
+      intro b
+      rw [emit_fillProg, ← fillEv_emit hh (hq b) (hsn b), emit_passProg, eb]
+    have : emitAfter (structTerns el kw (.cons hdr body more) k) = emit (structTerns el kw (.cons hdr body more) k) := by
+      simp [emitAfter, structTerns, startsCont, hc]
+    rw [this]
+    simp only [structTerns, emitTerns]
+    rw [emit_comp, suite, em]
+    simp
 end
 
 /-! ## lines the generator itself writes -/
@@ -573,7 +661,7 @@ theorem no_colon_lineOk (s : Str) (hc : s.contains ':' = false) (ht : hasText (s
     split
     · rfl
     · rename_i k _
-      exact firstLine_contains _ _ (contains_drop _ _ _ (contains_dropWhile s isSpace ':' hc))
+      exact contains_drop _ _ _ (contains_dropWhile s isSpace ':' hc)
   simp [LineOk, ht, hu, ho]
 
 /-! ## margins -/
